@@ -220,9 +220,9 @@ def check_property(pid, tier, seed):
         violations.append(("harness-build", rp, True))
         return finish(pid, tier, seed, t0, cov, violations, known_hits, notes)
 
-    # 2. facts
+    # 2. facts (always regenerated: Gen/Facts.lean is imported by the library root)
     facts_digest = None
-    if spec.get("facts"):
+    if True:
         ok, out, facts_digest = regenerate_facts()
         if not ok:
             rp = write_replay(pid, seed, 0, {"property": pid, "kind": "proof", "broken": "fact extractor failed on /repo", "log": out[-4000:]})
